@@ -47,6 +47,12 @@ Step ==
        THEN /\ abs' = <<>> /\ store' = {} /\ nw' = 0 /\ form' = "none" /\ tight' = TRUE
             /\ skip' = FALSE
        ELSE IF skip THEN UNCHANGED <<abs, store, nw, form, tight, skip>>
+       \* the process died or hung in this call (the event carries the script fields only):
+       \* admissible nowhere
+       ELSE IF ev.out \notin {"ret", "panic", "na"}
+       THEN /\ PrintT(<<"MISMATCH", ev.ep, ev.seq, ev.op, "outcome">>)
+            /\ skip' = TRUE
+            /\ UNCHANGED <<abs, store, nw, form, tight>>
        ELSE LET g == GrowthOf(ev)
                 x == Eff(ev, g)
                 w == Why(ev, x, g)
